@@ -45,7 +45,7 @@ void check_C03(Src &s, Ctx &ctx) {
     static const int fmap[] = {F_GLOBAL, F_SEQ, F_FOURIER, F_LOCALP, F_WAVE};
     int fam = fmap[s.weighted({6, 3, 3, 3, 3})];
     SpecOpts so; so.fam_mask = 1u << fam; so.max_dims = 3; so.min_outs = 1; so.max_outs = 8; so.conformal = false; so.local_order0 = false;
-    so.cap = cfg().tier ? 800 : 250; so.min_depth = (fam == F_LOCALP) ? 1 : 0;
+    so.cap = cfg().tier ? 400 : 250; so.min_depth = (fam == F_LOCALP) ? 1 : 0;
     GridState st; st.cap = so.cap; st.ctx = &ctx;
     st.spec = decode_spec(s, so);
     if (fam == F_LOCALP && st.spec.rule == rule_localp0) st.spec.rule = rule_localp;   // the statement covers boundary-including rules only
